@@ -68,6 +68,22 @@ macro_rules! int_dispatch {
     }};
 }
 
+/// write!(dst, spec, arg) for a fixed list of format specs (width, fill, alignment, precision, Debug)
+pub fn write_spec<W: std::fmt::Write, A: std::fmt::Display + std::fmt::Debug>(w: &mut W, spec: u8, a: &A) -> std::fmt::Result {
+    match spec % 10 {
+        0 => write!(w, "{a}"),
+        1 => write!(w, "{a:>12}"),
+        2 => write!(w, "{a:<7}|"),
+        3 => write!(w, "{a:*^31}"),
+        4 => write!(w, "{a:.3}"),
+        5 => write!(w, "{a:10.2}|"),
+        6 => write!(w, "{a:?}"),
+        7 => write!(w, "[{a:-<18.17}]"),
+        8 => write!(w, "{a}{a:>3}"),
+        _ => write!(w, "{a:#?}"),
+    }
+}
+
 fn flat_chars(items: &[String]) -> Vec<char> {
     items.iter().flat_map(|s| s.chars()).collect()
 }
@@ -373,6 +389,16 @@ impl World {
                 self.ensure_live(*b);
                 Outcome::Ok(Ret::Unit)
             }
+            Op::WriteArg { slot, from, spec } => {
+                self.ensure_live(*from);
+                // the argument is a handle of its own (a clone when it is the target itself)
+                let arg = self.slots[*from as usize].clone().unwrap();
+                let dst = self.slots[*slot as usize].as_mut().unwrap();
+                match write_spec(dst, *spec, &arg) {
+                    Ok(()) => Outcome::Ok(Ret::Unit),
+                    Err(_) => Outcome::FmtErr,
+                }
+            }
             Op::Extend { slot, it } => {
                 self.extend_real(*slot, it);
                 Outcome::Ok(Ret::Unit)
@@ -580,6 +606,14 @@ impl World {
                 Outcome::Ok(Ret::Unit)
             }
             Op::Compare { .. } => Outcome::Ok(Ret::Unit),
+            Op::WriteArg { slot, from, spec } => {
+                let arg = self.model[*from as usize].clone().unwrap_or_default();
+                let dst = self.model[*slot as usize].as_mut().unwrap();
+                match write_spec(dst, *spec, &arg) {
+                    Ok(()) => Outcome::Ok(Ret::Unit),
+                    Err(_) => Outcome::FmtErr,
+                }
+            }
             Op::Extend { slot, it } => {
                 let p = it.panic_at;
                 let items = self.model_items(it);
